@@ -594,3 +594,5 @@ M('seed5-C18-facet-update-emits-running', ['C18'], LN, "                if self.
 M('seed5-C05-close-resets-shared-id', ['C01', 'C02', 'C05', 'C07'], Z, "                            sender.min_recv_id = MSG_ID_INITIAL  # for ephemeral only", "                            min_recv_id = MSG_ID_INITIAL  # for ephemeral only", ['C01.R10', 'C02.R2', 'C05.R9', 'C07.R4'])
 M('seed5-C06-fast-forward-only-after-first-id', ['C06'], Z, "                self.min_send_id = min_send_id = prev_id + 1\n\n                if msg_id != MSG_ID_INITIAL:\n                    logger.warning(", "                if msg_id != MSG_ID_INITIAL:\n                    self.min_send_id = min_send_id = prev_id + 1\n                    logger.warning(", ['C06.R3'])
 M('seed5-C02-empty-dst-falls-back-to-src', ['C02'], F, "                topics = [tuple([t.strip() or default_topic for t in s.strip().split('>')] * 2)[:2] for s in topics]", "                topics = [tuple([t.strip() or s.strip().split('>')[0].strip() or default_topic for t in s.strip().split('>')] * 2)[:2] for s in topics]", ['C02.R10'])
+M('loop-sends-input-not-result', ['C03'], F, "        frames = self.process_frames(frames)\n\n        while not self.mq.send(frames,", "        result = self.process_frames(frames)\n\n        while not self.mq.send(frames,", ['C03.R14'])
+M('loop-timeout-skips-process', ['C03'], F, "            if (sources_timeout := sources_timeout - POLL_TIMEOUT_MS) <= 0:\n                frames = {}\n\n                break", "            if (sources_timeout := sources_timeout - POLL_TIMEOUT_MS) <= 0:\n                return", ['C03.R14', 'C08.R4'])
